@@ -25,6 +25,9 @@ RULE = (
     "families, shipped gas tables; reference = the harness's method-of-lines solution with 600 true-Dirichlet "
     "cells, LSODA rtol 1e-9, own diffusivity lookup, self-validated against the closed form), for p_f/p_i uniform "
     "in (0.01, 0.99) or 1 - 10^-u, u in [1, 4]. Non-trivial = a ladder with >= 3 rungs whose finest nx >= 40. "
+    "The constant-diffusivity tables are the power-law family with mu ~ p (m proportional to p) and a slightly compressible "
+    "liquid (constant c and mu: diffusivity column exactly flat, m ~ exp(c p), so m(p_f)/m(p_i) != p_f/p_i). "
+    "Half of the ladders run on ONE object whose public nx field is reassigned between rungs, the others build a new object per rung. "
     "Distinct = hash of the case record."
 )
 ASSUMPTIONS = [
@@ -61,12 +64,15 @@ def strategy_(draw, tier):
         "nx0": 10,
         "T": draw(st.floats(1.0, 4.0)),
         "ratio": draw(st.one_of(st.floats(0.01, 0.99), st.floats(1.0, 4.0).map(lambda u: 1.0 - 10.0 ** (-u)))),
+        # the ladder on one object whose public `nx` field is reassigned between rungs (the reservoir classes are mutable
+        # dataclasses), or a new object per rung
+        "one_object": draw(st.booleans()),
     }
     if cls == "ideal":
         c["p_i"] = draw(st.floats(100.0, 15000.0))
         return c
     if cls == "const":
-        c["table"] = draw(tables.synthetic_spec(nmax=200, families=("power1",)))
+        c["table"] = draw(tables.synthetic_spec(nmax=200, families=("power1", "liquid")))
     else:
         c["table"] = draw(st.one_of(tables.synthetic_spec(nmax=300, families=("power", "kinked", "realgas")), tables.synthetic_spec(nmax=300, families=("power", "kinked", "realgas")), tables.shipped_spec()))
     # the same fluid in another unit of viscosity (tables.build): the scaled problem does not change, absolute
@@ -164,15 +170,18 @@ def check_case(case) -> Result:
         S_flux = S if cls == "ideal" else d
 
     errs = {"flux": [], "inplace": [], "field": []}
+    r = None
+    res.labels["ladder_on_one_object"] = bool(case.get("one_object"))
     for nx in nxs:
         nt = nx * nx
         t = np.linspace(0.0, np.sqrt(T), nt + 1) ** 2
-        if cls == "ideal":
+        if r is not None and case.get("one_object"):
+            r.nx = nx
+        elif cls == "ideal":
             r = IdealReservoir(nx, p_f, p_i, None)
-            x = np.linspace(0.0, 1.0, nx)
         else:
             r = SinglePhaseReservoir(nx, p_f, p_i, fluid)
-            x = np.arange(1, nx + 1) / nx
+        x = np.linspace(0.0, 1.0, nx) if cls == "ideal" else np.arange(1, nx + 1) / nx
         lib("simulate", r.simulate, t)
         m = np.asarray(r.pseudopressure, float)
         if m.shape != (nt + 1, nx) or not np.all(np.isfinite(m)):
